@@ -1,95 +1,4 @@
-import AnnVerif.Model.DriverUtil
-import AnnVerif.Model.Node
-open AnnVerif AnnVerif.Drv AnnVerif.Node
-
-structure DSt where
-  cfg : Cfg := Node.repaired
-  n : Node := Node.init Node.repaired 1 ⟨[], none, 0⟩ none false
-  addrs : List Bytes := []
-
-def showName (b : Name) : String := if b.isEmpty then "-" else String.fromUTF8! (ByteArray.mk b.toArray)
-def parseName (s : String) : Name := if s == "-" then [] else s.toUTF8.toList
-
-def showStep : Step → String
-  | .newHeight => "NewHeight" | .newRound => "NewRound" | .propose => "Propose" | .prevote => "Prevote"
-  | .prevoteWait => "PrevoteWait" | .precommit => "Precommit" | .precommitWait => "PrecommitWait"
-  | .commit => "Commit"
-
-def parseStep : String → Step
-  | "NewHeight" => .newHeight | "NewRound" => .newRound | "Propose" => .propose | "Prevote" => .prevote
-  | "PrevoteWait" => .prevoteWait | "Precommit" => .precommit | "PrecommitWait" => .precommitWait
-  | _ => .commit
-
-def showOpt (o : Option Name) : String := match o with | some b => showName b | none => "-"
-
-def showEmit : Emit → String
-  | .timeout h r s => s!"T({h},{r},{showStep s})"
-  | .panic _ => "PANIC"
-  | .commit h b => s!"COMMIT({h},{showName b})"
-
-def digest (n : Node) : String :=
-  let prop := match n.proposal with | some p => showName p.block | none => "-"
-  s!"h={n.height} r={n.round} s={showStep n.step} lr={n.lockedRound} lb={showOpt n.lockedBlock} " ++
-  s!"prop={prop} pb={showOpt n.proposalBlock} pp={showOpt n.proposalParts} cr={n.commitRound} q={n.queue.length} | " ++
-  " ".intercalate (n.out.map showEmit)
-
-def showMsg : Msg → String
-  | .proposal p _ _ => s!"P({p.round},{showName p.block},{p.polRound},{showName p.polBlock})"
-  | .parts _ _ b => s!"B({showName b})"
-  | .vote v _ => s!"V({v.type},{v.height},{v.round},{showName (nameOf v.bid)})"
-
-/-- a step that panics leaves the real node in an undefined state: report PANIC only -/
-def finish (d : DSt) (n : Node) (pre : String := "") : DSt × String :=
-  if n.out.any (fun e => match e with | .panic _ => true | _ => false) then
-    ({ d with n := { n with out := [] } }, "PANIC")
-  else ({ d with n := { n with out := [] } }, pre ++ digest n)
-
-partial def drainAll (n : Node) (acc : List String) (fuel : Nat) : Node × List String :=
-  match fuel, n.queue with
-  | 0, _ => (n, acc)
-  | _, [] => (n, acc)
-  | f + 1, m :: rest =>
-    let n := handleMsg { n with queue := rest } m ""
-    drainAll n (acc ++ [showMsg m]) f
-
-def dstep (d : DSt) (line : String) : DSt × String :=
-  let ws := words line
-  let g (k : String) : String := (kv ws k).getD ""
-  match ws with
-  | "cfg" :: _ => ({ d with cfg := ⟨g "verifyOwnParts" != "0"⟩ }, "ok")
-  | "init" :: _ =>
-    let powers := (g "powers").splitOn "," |>.filterMap String.toInt?
-    let addrs := (g "addrs").splitOn "," |>.filterMap Hex.decode
-    let vals : List ValSet.Val := (addrs.zip powers).map fun (a, p) => ⟨a, p, 0⟩
-    let vs := ValSet.newValSet ValSet.repaired vals
-    let n := Node.init d.cfg 1 vs (g "me").toNat? ((g "skip") == "1")
-    finish { d with addrs := addrs } n
-  | "mkblock" :: nm :: _ =>
-    let n := { d.n with validTab := d.n.validTab ++ [(parseName nm, d.n.height, g "valid" != "0")] }
-    ({ d with n := n }, "ok")
-  | "proposal" :: nm :: _ =>
-    match (g "h").toInt?, (g "r").toInt?, (g "pol").toInt?, (g "signer").toNat? with
-    | some h, some r, some pol, some sg =>
-      let p : Proposal := ⟨h, r, parseName nm, pol, parseName (g "polblock")⟩
-      finish d (handleMsg d.n (.proposal p sg (g "bad" == "1")) "peer")
-    | _, _, _, _ => (d, "bad-op")
-  | "parts" :: nm :: _ =>
-    match (g "h").toInt?, (g "r").toInt? with
-    | some h, some r => finish d (handleMsg d.n (.parts h r (parseName nm)) "peer")
-    | _, _ => (d, "bad-op")
-  | "vote" :: _ =>
-    match (g "t").toNat?, (g "h").toInt?, (g "r").toInt?, (g "idx").toInt?, Hex.decode (g "addr") with
-    | some t, some h, some r, some idx, some addr =>
-      let v : VoteSet.Vote := ⟨idx, addr, h, r, t, bidOf (parseName (g "block")), (g "sig").toNat?.getD 0⟩
-      finish d (handleMsg d.n (.vote v (g "ok" == "1")) (g "peer"))
-    | _, _, _, _, _ => (d, "bad-op")
-  | ["timeout", h, r, s] =>
-    match h.toInt?, r.toInt? with
-    | some h, some r => finish d (handleTimeout d.n h r (parseStep s))
-    | _, _ => (d, "bad-op")
-  | ["drain"] =>
-    let (n, msgs) := drainAll d.n [] 200
-    finish d n (" ".intercalate msgs ++ " || ")
-  | _ => (d, "bad-op")
+import AnnVerif.Model.NodeDriver
+open AnnVerif AnnVerif.Drv AnnVerif.NodeDrv
 
 def main : IO Unit := run dstep {}
